@@ -164,12 +164,19 @@ inductive Ev where
   | sendHb                   -- application sends a heartbeat message itself
   | recv (k : RecvKind)      -- bytes arrive from the peer
   | close                    -- application closes the session
+  | sendFailed               -- application calls `send_msg` and the call raises before the write (see `Sess.step`)
   deriving Repr, DecidableEq, Inhabited
 
+/-- `sendFailed`: a `send_msg(msg)` call that raises before `transport.write` — FixSession.send_msg: `msg.validate(BODY)` raises
+    `ValueError` (mandatory body field missing) or `_prepare_complete_msg` raises while encoding (the sequence number is given
+    back, 9c458df); SoupSession.send_msg: `msg.to_bytes()` raises (text that is not ASCII, payload longer than a packet).
+    The write and the `ping()` of the local monitor both come *after* the statement that raises: nothing is written and no
+    monitor is touched. -/
 def Sess.step (s : Sess) : Ev → Sess
   | .adv => s.bump.tickLocal.tickRemote
   | .send => s.sendMsg .app
   | .sendHb => s.sendMsg .appHb
+  | .sendFailed => s
   | .recv k => s.dataReceived k
   | .close => s.close false
 
